@@ -4401,7 +4401,11 @@ class ParameterizedMetaclass(type):
                 dinfo = getattr(method, '_dinfo', {'watch': False})
                 if (not any(dep[0] == w[0] for w in _watch+_inherited)
                     and dinfo.get('watch')):
-                    _inherited.append(dep)
+                    # resolved again for this class: a method the inherited
+                    # one names as a dependency may be overridden here
+                    minfo = MInfo(cls=mcs, inst=None, name=dep[0], method=method)
+                    deps, dynamic_deps = _params_depended_on(minfo, dynamic=False)
+                    _inherited.append(dep[:3] + (deps, dynamic_deps))
 
         mcs.param._depends = {'watch': _inherited+_watch}
 
